@@ -277,6 +277,14 @@ pub fn exec_trace(w: &mut C17Worker, trace: &Value, res: &mut ExecResult) {
                 return;
             }
         }
+        // coverage: which module was delivered into a session that already had which other one
+        for m in &mods {
+            for d in delivered.iter().take(12) {
+                if d != m && !m.starts_with("sim::") && !d.starts_with("sim::") {
+                    res.cell(&format!("{d}>{m}"));
+                }
+            }
+        }
         for m in mods {
             delivered.insert(m);
         }
